@@ -73,6 +73,19 @@ def check_shallow_hooks(ctx: Check, tree: Tree, hook_names: list[str], need_comp
                     f"{what}: {fn.qual} reads the arguments with {unparse(src['node'])} (= {src['callee']})",
                     {"deep_source": src["callee"], "why": DEEP_SOURCES[src["callee"]], "path": list(path)},
                 )
+        for src, fn, path in sources:
+            if src["kind"] == "getter-arity":
+                bad = True
+                from ..exprmodel import expression_classes
+
+                single = sorted(c.qual.split("::")[-1] for c in expression_classes(tree).values() if len(c.fields) == 1)
+                ctx.violation(
+                    "R-SHALLOW",
+                    f"{IMPLEMENT_NEW}::cls.{attr}->{src['callee']}::arity",
+                    tree.loc(src["node"]),
+                    f"{what}: {fn.qual} reads the fields with {unparse(src['node'])[:70]} - for a class with ONE field that is the bare value, not a 1-tuple",
+                    {"why": "the hooks rebuild with cls(*arguments): a bare expression is unpacked (or fails to)", "one_field_classes": single[:8], "n_one_field_classes": len(single), "path": list(path)},
+                )
         if bad:
             continue
         shallow = [s for s in sources if s[0]["kind"] in {"args", "fields"}]
